@@ -89,8 +89,14 @@ def scenario(draw):
     sigint = draw(st.integers(0, 9)) == 0
     if sigint:
         drivers.append([{"at_ms": draw(st.sampled_from([0, 5, 40])), "op": "sigint"}])
-    return {"runner": runner, "accept_delay": draw(accept_delay), "switchinterval": draw(switchinterval), "bound_s": BOUND,
-            "linger_ms": 30, "payloads": payloads, "drivers": drivers, "sigint": sigint}
+    sc = {"runner": runner, "accept_delay": draw(accept_delay), "switchinterval": draw(switchinterval), "bound_s": BOUND,
+          "linger_ms": 30, "payloads": payloads, "drivers": drivers, "sigint": sigint}
+    if draw(st.integers(0, 4)) == 0 and len(payloads) <= 8:
+        # harness-owned schedule: per-thread delays at every source line of the runner modules
+        sc["trace_delay"] = {"files": ["runners/asyncio_runner.py", "runners/trio_runner.py", "runners/thread_runner.py", "runners/meta_runner.py",
+                                       "runners/base_runner.py", "runners/service.py"],
+                             "delays_ms": [draw(st.sampled_from([0, 0, 1])), draw(st.sampled_from([0, 1, 2])), draw(st.sampled_from([0, 1, 3]))]}
+    return sc
 
 
 def judge(sc, obs) -> Result:
@@ -226,7 +232,8 @@ def run_case(sc) -> Result:
     others = [p for p in sc["payloads"] if p.get("role") != "failing"]
     for p in failing:
         res.cls(f"{p['flavour']}:{p['kind']}:{p['regmode']}")
-    res.cls("runner:" + sc["runner"], "failing:%d" % len(failing), "bystanders:%d" % min(len(others), 6), "sigint:" + str(bool(sc.get("sigint"))))
+    res.cls("runner:" + sc["runner"], "failing:%d" % len(failing), "bystanders:%d" % min(len(others), 6), "sigint:" + str(bool(sc.get("sigint"))),
+            "schedule-perturbed:" + str(bool(sc.get("trace_delay"))))
     flavours = {p["flavour"] for p in failing}
     res.nontrivial = (
         len(failing) >= 2
